@@ -81,7 +81,18 @@ def psi(k: int, z):
 def install_special_function_atoms(pe: PE):
     """cern_polygamma(z, k) -> psi<k>(z) (shift-normalised);  g-functions / log-function Mellin transforms -> atoms"""
     pe.overrides["ekore.harmonics.polygamma.cern_polygamma"] = lambda pe_, a, k: psi(pe_.as_index(a[1]), a[0])
-    for modname, prefix in (("ekore.harmonics.g_functions", "G"), ("ekore.harmonics.log_functions", "L")):
+    # the g-functions are numerical parametrisations -> atoms; harmonics.log_functions are elementary closed forms in the
+    # harmonic sums and are interpreted like any other code
+    for modname, prefix in (("ekore.harmonics.g_functions", "G"),):
         mod = pe.src.module(modname)
         for fname, f in mod.funcs.items():
             pe.overrides[f.qname] = (lambda nm: lambda pe_, a, k: dag.fn(f"{nm}", *a))(f"{prefix}_{fname}")
+
+
+def assume_generic_moment(text, env):
+    """named regime assumption: the Mellin moment is not within 1e-5 of a removable singularity (N = 1) -
+    the guarded branches substitute the analytic limit there (audited under C26)"""
+    t = text.replace(" ", "")
+    if "abs(n.imag)<" in t or "abs(n-1" in t or "abs(N.imag)<" in t or "abs(N-1" in t:
+        return False
+    return None
